@@ -199,3 +199,123 @@ pub fn run_history(case: &Value) -> Value {
     }
     json!({"id": case["id"], "preds": pred_status, "rests": rests, "steps": steps})
 }
+
+
+/// case kind "dictedit": {"model":…, "newdict":[{"ng","w","c"}], "texts":[[cp]]}
+/// -> scores of every text before and after Model::replace_dictionary, and the decoded model after the edit.
+pub fn run_dictedit(case: &Value) -> Value {
+    use vaporetto::{Model, WordWeightRecord};
+    let mj = &case["model"];
+    let texts: Vec<String> = case["texts"].as_array().cloned().unwrap_or_default().iter().map(cps_to_string).collect();
+    let score = |m: Model| -> Value {
+        let r = catch_unwind(AssertUnwindSafe(|| {
+            let p = Predictor::new(m, false).map_err(|_| ())?;
+            let mut out = vec![];
+            for t in &texts {
+                let mut s = Sentence::from_raw(t.clone()).map_err(|_| ())?;
+                p.predict(&mut s);
+                out.push(json!(s.boundary_scores()));
+            }
+            Ok::<_, ()>(Value::Array(out))
+        }));
+        match r {
+            Ok(Ok(v)) => v,
+            Ok(Err(())) => json!("err"),
+            Err(_) => json!("panic"),
+        }
+    };
+    let (Ok(m0), Ok(mut m1)) = (model_from_json(mj), model_from_json(mj)) else {
+        return json!({"id": case["id"], "res": "model-rejected"});
+    };
+    let before = score(m0);
+    let mut recs = vec![];
+    let mut rec_status = vec![];
+    for e in case["newdict"].as_array().cloned().unwrap_or_default() {
+        let r = catch_unwind(AssertUnwindSafe(|| {
+            WordWeightRecord::new(cps_to_string(&e["ng"]), ints(&e["w"]), e.get("c").map(cps_to_string).unwrap_or_default())
+        }));
+        match r {
+            Ok(Ok(rec)) => {
+                rec_status.push(json!("ok"));
+                recs.push(rec);
+            }
+            Ok(Err(_)) => rec_status.push(json!("err")),
+            Err(_) => rec_status.push(json!("panic")),
+        }
+    }
+    let r = catch_unwind(AssertUnwindSafe(|| {
+        m1.replace_dictionary(recs);
+        let bytes = m1.to_vec().map_err(|_| ())?;
+        let dump: Vec<Value> = m1
+            .dictionary()
+            .iter()
+            .map(|d| json!({"ng": str_to_cps(d.get_word()), "w": d.get_weights(), "c": str_to_cps(d.get_comment())}))
+            .collect();
+        Ok::<_, ()>((bytes, dump, m1))
+    }));
+    match r {
+        Ok(Ok((bytes, dump, m1))) => {
+            let after_model = mmodel_decode(&bytes).map(|m| mmodel_to_json(&m)).unwrap_or(Value::Null);
+            json!({"id": case["id"], "res": "ok", "records": rec_status, "before": before, "after": score(m1),
+                   "model_after": after_model, "dictionary": dump})
+        }
+        _ => json!({"id": case["id"], "res": "panic", "records": rec_status}),
+    }
+}
+
+/// case kind "pipeline": the library pipeline the command-line tools are documented to run, line by line:
+/// {"model":…, "no_norm":bool, "predict_tags":bool, "wsconst":["D",…], "lines":[[cp]…], "mode":"predict"|"evaluate"}
+/// predict:  per line {accepted, bnd, ntags, tags (rows), scores, tokens (with candidates when tags are predicted)}
+/// evaluate: per (tokenized reference) line {ref:{bnd,ntags,tags}, sys:{bnd,ntags,tags}} (rejected lines: accepted=false)
+pub fn run_pipeline(case: &Value) -> Value {
+    use vaporetto_rules::{string_filters::KyteaFullwidthFilter, StringFilter};
+    let no_norm = case["no_norm"].as_bool().unwrap_or(false);
+    let ptags = case["predict_tags"].as_bool().unwrap_or(false);
+    let evaluate = case["mode"].as_str() == Some("evaluate");
+    let pred = match predictor_from_json(&json!({"model": case["model"], "tags": ptags, "store": ptags})) {
+        Ok(p) => p,
+        Err(e) => return json!({"id": case["id"], "res": e}),
+    };
+    let filters: Vec<Box<dyn SentenceFilter>> = case["wsconst"]
+        .as_array()
+        .cloned()
+        .unwrap_or_default()
+        .iter()
+        .map(|f| make_filter(f.as_str().unwrap(), None))
+        .collect();
+    let mut lines_out = vec![];
+    for l in case["lines"].as_array().cloned().unwrap_or_default() {
+        let line = cps_to_string(&l);
+        let r = catch_unwind(AssertUnwindSafe(|| {
+            let (raw, refproj) = if evaluate {
+                match Sentence::from_tokenized(&line) {
+                    Ok(s) => (s.as_raw_text().to_string(), Some(proj_state(&s))),
+                    Err(_) => return json!({"accepted": false}),
+                }
+            } else {
+                (line.clone(), None)
+            };
+            let input = if no_norm { raw.clone() } else { KyteaFullwidthFilter.filter(&raw) };
+            let mut s = match Sentence::from_raw(input.clone()) {
+                Ok(s) => s,
+                Err(_) => return json!({"accepted": false}),
+            };
+            pred.predict(&mut s);
+            filters.iter().for_each(|f| f.filter(&mut s));
+            #[cfg(feature = "tag-prediction")]
+            if ptags {
+                s.fill_tags();
+            }
+            let st = proj_state(&s);
+            let toks = proj_tokens(&s, ptags && s.n_tags() > 0);
+            let mut o = json!({"accepted": true, "norm": str_to_cps(&input), "bnd": st["bnd"], "ntags": st["ntags"], "tags": st["tags"],
+                               "scores": st["scores"], "tokens": toks});
+            if let Some(rp) = refproj {
+                o["ref"] = json!({"bnd": rp["bnd"], "ntags": rp["ntags"], "tags": rp["tags"]});
+            }
+            o
+        }));
+        lines_out.push(r.unwrap_or(json!({"accepted": false, "panic": true})));
+    }
+    json!({"id": case["id"], "res": "ok", "lines": lines_out})
+}
